@@ -14,7 +14,42 @@ def c01_2400_plus_zero():
     return r.hour_of_day == 24        # field outside 0 <= h < 24
 
 
-WITNESSES = {"c01_2400_plus_zero": c01_2400_plus_zero}
+def c09_overflow_in_bounded_recurrence():
+    from metomi.isodatetime.parsers import TimeRecurrenceParser
+    try:
+        TimeRecurrenceParser().parse("R3/PT1E999H/2000-01-01T00Z")
+    except ValueError:
+        return False
+    except OverflowError:
+        return True                   # not derived from ValueError
+    return False
+
+
+def c20_day_plus_minute_not_earliest():
+    p = TimePoint(year=2021, month_of_year=1, day_of_month=15, hour_of_day=0,
+                  minute_of_hour=30, second_of_minute=1, time_zone_hour=0, time_zone_minute=0)
+    t = TimePoint(truncated=True, day_of_month=31, minute_of_hour=30)
+    r = t + p
+    earliest = TimePoint(year=2021, month_of_year=1, day_of_month=31, hour_of_day=0,
+                         minute_of_hour=30, second_of_minute=0, time_zone_hour=0,
+                         time_zone_minute=0)
+    return r > earliest               # a later match than the earliest one
+
+
+def c12_mixed_nominal_start_duration_count():
+    from metomi.isodatetime.data import TimeRecurrence
+    r = TimeRecurrence(repetitions=4,
+                       start_point=TimePoint(year=0, month_of_year=1, day_of_month=30,
+                                             hour_of_day=0, minute_of_hour=0, second_of_minute=0,
+                                             time_zone_hour=0, time_zone_minute=0),
+                       duration=Duration(months=1, hours=12))
+    return len(list(r)) != 4          # n repetitions, fewer than n points
+
+
+WITNESSES = {"c01_2400_plus_zero": c01_2400_plus_zero,
+             "c12_mixed_nominal_start_duration_count": c12_mixed_nominal_start_duration_count,
+             "c20_day_plus_minute_not_earliest": c20_day_plus_minute_not_earliest,
+             "c09_overflow_in_bounded_recurrence": c09_overflow_in_bounded_recurrence}
 
 if __name__ == "__main__":
     sys.exit(1 if WITNESSES[sys.argv[1]]() else 0)
